@@ -11,6 +11,10 @@ itself, without naming locals, so that renaming / reordering does not break a pr
                  =>  L := L ++ flat-map of the blocks over the ascending indices that satisfy c
                      (filter_indices: the same inverse-function encoding as np.where / boolean masks)
 
+  S4 temporaries  any of the above may start with plain assignments to temporaries (`t = expr(x)`), before and inside the
+                 `if`; an inner `if / elif / else` whose tests do not depend on the loop item is resolved once (it must evaluate to
+                 a concrete boolean before the loop).  Temporaries are unbound after the loop (a later read is refused).
+
 Side conditions checked on the AST (else the summary does not apply and an invariant is required): the body consists
 only of `name.append(expr)` / `name.extend([..])` statements on plain local lists; no expression mentions a list that is
 being built; loop targets are not assigned; no break / continue / return / yield; the inner range of S3 does not
@@ -65,6 +69,62 @@ def target_names(t):
     return {y.id for y in ast.walk(t) if isinstance(y, ast.Name)}
 
 
+
+def _is_temp_assign(st):
+    """`name = expr` or `a, b = expr` (plain names only)"""
+    if not (isinstance(st, ast.Assign) and len(st.targets) == 1):
+        return False
+    t = st.targets[0]
+    if isinstance(t, ast.Name):
+        return True
+    return isinstance(t, (ast.Tuple, ast.List)) and all(isinstance(e, ast.Name) for e in t.elts)
+
+
+def _assigned(st):
+    t = st.targets[0]
+    return [t.id] if isinstance(t, ast.Name) else [e.id for e in t.elts]
+
+
+def _split_assigns(body):
+    """leading `name = expr` statements, rest"""
+    pre = []
+    i = 0
+    while i < len(body) and _is_temp_assign(body[i]):
+        pre.append(body[i])
+        i += 1
+    return pre, body[i:]
+
+
+def _resolve_static(interp, frame, stmts, dynamic_names):
+    """flatten statements into [Assign | append-Expr]: an `if` whose test mentions no loop-dependent name is evaluated once in the
+    enclosing frame and must be concrete; anything else (raise in a live branch, loops, ...) is not summarisable"""
+    out = []
+    for st in stmts:
+        if isinstance(st, ast.If):
+            if _names(st.test) & dynamic_names:
+                raise NotSummarisable()
+            depth = len(interp.ctx.taken)
+            t = truth(interp.ctx, interp.eval(st.test, frame))
+            if len(interp.ctx.taken) != depth or not isinstance(t, bool):
+                if not isinstance(t, bool) and z3.is_true(z3.simplify(t)):
+                    t = True
+                elif not isinstance(t, bool) and z3.is_false(z3.simplify(t)):
+                    t = False
+                else:
+                    raise NotSummarisable()
+            out.extend(_resolve_static(interp, frame, st.body if t else st.orelse, dynamic_names))
+        elif _is_temp_assign(st):
+            dynamic_names.update(_assigned(st))
+            out.append(st)
+        elif isinstance(st, ast.Expr) and isinstance(st.value, ast.Call):
+            out.append(st)
+        elif isinstance(st, ast.Pass):
+            continue
+        else:
+            raise NotSummarisable()
+    return out
+
+
 class Level:
     """one loop level: how to bind its targets for a symbolic position"""
 
@@ -102,9 +162,37 @@ def _summarise(interp, st, frame, seq):
     for t, _ in levels:
         bound_names |= target_names(t)
     cond = None
-    if len(body) == 1 and isinstance(body[0], ast.If) and not body[0].orelse:
+    pre_assigns, rest = _split_assigns(body)
+    inner_assigns = []
+    dyn = set(bound_names) | (flat_targets(flat) if flat else set()) | {nm for a in pre_assigns for nm in _assigned(a)}
+    if pre_assigns or (len(rest) == 1 and isinstance(rest[0], ast.If) and not rest[0].orelse and
+                       any(not (isinstance(x, ast.Expr)) for x in rest[0].body)) or any(isinstance(x, (ast.If, ast.Assign)) for x in rest[1:]):
+        # S4: temporaries and loop-independent inner branches
+        if len(rest) == 1 and isinstance(rest[0], ast.If) and not rest[0].orelse and (_names(rest[0].test) & dyn):
+            cond = rest[0].test
+            flat_body = _resolve_static(interp, frame, rest[0].body, dyn)
+        else:
+            flat_body = _resolve_static(interp, frame, rest, dyn)
+        inner_assigns = [x for x in flat_body if isinstance(x, ast.Assign)]
+        body = [x for x in flat_body if not isinstance(x, ast.Assign)]
+        # evaluating every temporary before the appends is the same as the source order provided each temporary is assigned
+        # exactly once per iteration and never read (by an append or another temporary) before that assignment
+        assigned_at = {}
+        for q, x in enumerate(list(pre_assigns) + flat_body):
+            reads = _names(x.value) if isinstance(x, ast.Assign) else _names(x)
+            for t in reads:
+                if t in assigned_at or t not in {nm for a in pre_assigns + inner_assigns for nm in _assigned(a)}:
+                    continue
+                raise NotSummarisable()          # read before (or without) this iteration's assignment
+            if isinstance(x, ast.Assign):
+                for nm in _assigned(x):
+                    if nm in assigned_at:
+                        raise NotSummarisable()      # reassigned
+                    assigned_at[nm] = q
+    elif len(body) == 1 and isinstance(body[0], ast.If) and not body[0].orelse:
         cond = body[0].test
         body = body[0].body
+    temps = [nm for a in pre_assigns + inner_assigns for nm in _assigned(a)]
     # inner uniform fill loop over a loop-invariant sequence?
     inner_fill = None
     if len(body) == 1 and isinstance(body[0], ast.For) and not body[0].orelse:
@@ -135,9 +223,17 @@ def _summarise(interp, st, frame, seq):
 
     from .interp import Frame
 
-    def item_frame(p):
+    if set(temps) & set(appends):
+        raise NotSummarisable()
+
+    def item_frame(p, inner=True):
         fr = Frame(frame.func, frame.module, closure=frame, self_cls=frame.self_cls)
         bind(fr, p)
+        for a in pre_assigns + (inner_assigns if inner else []):
+            depth = len(ctx.taken)
+            interp.assign(a.targets[0], interp.eval(a.value, fr), fr)
+            if len(ctx.taken) != depth:
+                raise Unsupported("branching in a temporary of a summarised loop body")
         return fr
 
     def no_branch(f):
@@ -150,7 +246,7 @@ def _summarise(interp, st, frame, seq):
     # condition as a closure over the position
     if cond is not None:
         def cond_fn(p):
-            fr = item_frame(p)
+            fr = item_frame(p, inner=False)
             t = no_branch(lambda: truth(ctx, interp.eval(cond, fr)))
             return z3.BoolVal(t) if isinstance(t, bool) else t
         from .lib_np import filter_indices
@@ -211,6 +307,8 @@ def _summarise(interp, st, frame, seq):
             L.buf.elem = et
         list_extend(interp, L, block)
         L.summary = {"filter": fi, "block": B, "inner_len": inner_len, "per_item": c, "offset_before": None}
+    for t in temps:
+        frame.vars.pop(t, None)      # Python leaves the last iteration's value bound; the model refuses a later read instead
     interp.stats.setdefault("loops_summarised", 0)
     interp.stats["loops_summarised"] += 1
     ctx.__dict__.setdefault("summaries", []).append({"lists": list(appends), "filter": fi, "total": total,
